@@ -495,6 +495,22 @@ func (f *family) runBatch(peg string, cases []*gcase, vs []variant, bno int) {
 			f.c.run.Violate("history-crash:"+id, "a reused parser (Buffer=in; Reset(); Parse()) crashed: "+hr.Panic+firstLine(hr.Fatal), map[string]any{"grammar": cs.text, "config": cf.name})
 			continue
 		}
+		// a tree returned by AST() belongs to the caller: held while the parser went on to later inputs, it must
+		// still be the tree it was
+		if len(hr.LateShape) == len(hr.Hist) {
+			for k := range hr.Hist {
+				if !hr.Hist[k].OK {
+					continue
+				}
+				f.c.run.Eval(1)
+				f.c.run.Count("trees_held_across_later_parses", 1)
+				if hr.LateShape[k] != hr.Hist[k].Shape {
+					f.c.run.Violate("history-tree:"+id, fmt.Sprintf("the tree AST() returned for step %d changed after the parser was reused for later inputs (config %s)", k, cf.name),
+						map[string]any{"grammar": cs.text, "config": cf.name, "input": cs.entries[hentries[hk.ci][k]].input, "tree_when_returned": hr.Hist[k].Shape, "same_tree_after_later_parses": hr.LateShape[k]})
+					break
+				}
+			}
+		}
 		for k, ei := range hentries[hk.ci] {
 			fi, ok := where[key{hk.ci, ei, hk.cfi}]
 			if !ok || results[fi].Lost {
